@@ -67,7 +67,15 @@ func (fx *FuncCtx) callWith(st *State, cc *ssa.CallCommon, fnv Val, args []Val, 
 		if rt == nil {
 			return Val{}
 		}
-		return fx.freshVal("log", rt)
+		lv := fx.freshVal("log", rt)
+		fx.assumeTyping(st, lv)
+		if _, isIface := rt.Underlying().(*types.Interface); isIface && len(lv.C) == 2 {
+			// a logger factory hands out a logger (never nil)
+			st.assume(not(eq(lv.C[0], "0")))
+			st.assume(not(eq(lv.C[1], "0")))
+			fx.trusted["logging factories return non-nil loggers"] = true
+		}
+		return lv
 	}
 	if b, ok := cc.Value.(*ssa.Builtin); ok {
 		fx.curInstr = instr
